@@ -132,7 +132,7 @@ func runC09(line string) string {
 		cl.nodes[0].stop()
 		cl.nodes[1].stop()
 	}
-	time.Sleep(10 * time.Millisecond)
+	settle(10 * time.Millisecond)
 	base := runtime.NumGoroutine()
 	port := freePort()
 	addr := fmt.Sprintf("127.0.0.1:%d", port)
@@ -189,14 +189,14 @@ func runC09(line string) string {
 				}
 				time.Sleep(time.Duration(argn(2, 0)/3) * time.Microsecond)
 			}
-			time.Sleep(300 * time.Millisecond)
+			settle(300 * time.Millisecond)
 		}()
 		time.Sleep(time.Duration(argn(2, 0)) * time.Microsecond)
 	case "stop-while-binding":
-		time.Sleep(120 * time.Millisecond)
+		settle(120 * time.Millisecond)
 	case "stop-active", "drain-then-stop", "stop-silent-backend", "stop-backend-down", "stop-twice":
 		waitListening()
-		time.Sleep(20 * time.Millisecond)
+		settle(20 * time.Millisecond)
 		for i := 0; i < argn(2, 2); i++ {
 			c, err := net.DialTimeout("tcp", addr, time.Second)
 			if err == nil {
@@ -208,12 +208,12 @@ func runC09(line string) string {
 				}
 			}
 		}
-		time.Sleep(30 * time.Millisecond)
+		settle(30 * time.Millisecond)
 	}
 	if sc == "drain-then-stop" {
 		ok := within(3*time.Second, func() { p.StopListen() })
 		out += "drain=" + map[bool]string{true: "ok", false: "HUNG"}[ok] + " "
-		time.Sleep(30 * time.Millisecond)
+		settle(30 * time.Millisecond)
 		// established connections keep working
 		kept := "kept"
 		for _, c := range clients {
@@ -249,7 +249,7 @@ func runC09(line string) string {
 		}
 		out += "established=" + kept + " new=" + nw + " "
 	}
-	ok := within(4*time.Second, func() { p.Stop() })
+	ok := within(time.Duration(float64(4*time.Second)*loadFactor), func() { p.Stop() })
 	if sc == "stop-twice" && ok {
 		ok = within(4*time.Second, func() { p.Stop() })
 	}
@@ -257,7 +257,7 @@ func runC09(line string) string {
 	if blocker != nil {
 		blocker.Close()
 	}
-	time.Sleep(60 * time.Millisecond)
+	settle(60 * time.Millisecond)
 	if portOpen(addr) {
 		out += " port=OPEN"
 	} else {
@@ -265,7 +265,7 @@ func runC09(line string) string {
 	}
 	openClients := 0
 	for _, c := range clients {
-		c.SetReadDeadline(time.Now().Add(300 * time.Millisecond))
+		c.SetReadDeadline(time.Now().Add(time.Duration(float64(500*time.Millisecond) * loadFactor)))
 		b := make([]byte, 4096)
 		for {
 			_, err := c.Read(b)
@@ -283,7 +283,7 @@ func runC09(line string) string {
 	} else {
 		out += fmt.Sprintf(" clients=OPEN:%d", openClients)
 	}
-	time.Sleep(40 * time.Millisecond)
+	settle(40 * time.Millisecond)
 	cl.mu.Lock()
 	ob := int(atomic.LoadInt32(&echoConns))
 	for _, nd := range cl.nodes {
@@ -296,13 +296,10 @@ func runC09(line string) string {
 		out += fmt.Sprintf(" backends=OPEN:%d", ob)
 	}
 	leak := 0
-	for t := 0; t < 40; t++ {
+	waitFor(3*time.Second, func() bool {
 		leak = runtime.NumGoroutine() - base
-		if leak <= 0 {
-			break
-		}
-		time.Sleep(10 * time.Millisecond)
-	}
+		return leak <= 0
+	})
 	if leak <= 0 {
 		out += " goroutines=ok"
 	} else {
@@ -347,7 +344,7 @@ func runLimitBurst(l, n int) string {
 		}
 		time.Sleep(5 * time.Millisecond)
 	}
-	time.Sleep(30 * time.Millisecond)
+	settle(30 * time.Millisecond)
 	var served, refused int32
 	var wg sync.WaitGroup
 	start := make(chan struct{})
@@ -375,7 +372,7 @@ func runLimitBurst(l, n int) string {
 		}()
 	}
 	close(start)
-	time.Sleep(400 * time.Millisecond)
+	settle(400 * time.Millisecond)
 	res := fmt.Sprintf("served=%d refused=%d", atomic.LoadInt32(&served), atomic.LoadInt32(&refused))
 	close(release)
 	wg.Wait()
